@@ -46,17 +46,32 @@ def pcgrad(index, ctx):
     fi = r[1]
     ctx.analysed(fi.qualname)
     fn = fi.node
-    # the conflict test: an If comparing a name with 0 by <
+    # the conflict test: an If whose test compares a value with 0 (any orientation / negation)
+    from ..guards import implies, oriented
+
+    is_zero = lambda e: isinstance(e, ast.Constant) and not isinstance(e.value, bool) and e.value == 0
+
+    def classify(c):
+        """N = 'the inner product is negative' (a zero inner product projects nothing either way)."""
+        o = oriented(c, lambda e: not is_zero(e))
+        if o is None or not is_zero(o[2]):
+            return None
+        return {ast.Lt: ("N", True), ast.LtE: ("N", True), ast.GtE: ("N", False), ast.Gt: ("N", False)}.get(o[1])
+
     tests = []
     for n in ast.walk(fn):
-        if isinstance(n, ast.If) and isinstance(n.test, ast.Compare) and len(n.test.ops) == 1:
-            op, rhs = n.test.ops[0], n.test.comparators[0]
-            if isinstance(rhs, ast.Constant) and rhs.value == 0 and isinstance(op, (ast.Lt, ast.GtE, ast.Gt, ast.LtE)):
-                tests.append(n)
+        if isinstance(n, ast.If):
+            core = n.test
+            while isinstance(core, ast.UnaryOp) and isinstance(core.op, ast.Not):
+                core = core.operand
+            if isinstance(core, ast.Compare) and len(core.ops) == 1 and classify(core) is not None:
+                tests.append((n, core))
     if len(tests) != 1:
         ctx.undecided("R1", "PCGrad: conflict test", f"expected one sign test against 0 in forward, found {len(tests)}", fi.loc())
         return
-    t = tests[0]
+    t, core = tests[0]
+    subject = oriented(core, lambda e: not is_zero(e))[0]
+    conflict_body = t.body if implies([(t.test, True)], classify, "N", True) else (t.orelse if implies([(t.test, False)], classify, "N", True) else None)
     # loops enclosing the test
     fors = [n for n in ast.walk(fn) if isinstance(n, ast.For) and any(x is t for x in ast.walk(n))]
     fors.sort(key=lambda n: sum(1 for _ in ast.walk(n)), reverse=True)
@@ -67,20 +82,20 @@ def pcgrad(index, ctx):
     jvar = inner.target.id if isinstance(inner.target, ast.Name) else None
     ivar = outer.target.id if isinstance(outer.target, ast.Name) else None
     mut = inplace_mutated_names(inner.body)
-    reads = backward_reads(inner.body, t.test.left)
+    reads = backward_reads(inner.body, subject)
     carried = sorted((set(mut) & reads) - {jvar})
     ctx.require(bool(carried), "R1", "PCGrad: conflict is tested against the already-projected vector",
                 f"test `{norm_text(t.test)}` reads {carried}, updated in the same loop",
                 f"the conflict test `{norm_text(t.test)}` depends on {sorted(reads)} — none of which is updated inside the loop over the other rows "
                 f"(updated there: {sorted(set(mut) - {jvar})}): later projections are tested against the ORIGINAL row", _loc(fi, t))
     # the update
-    upd = [s for s in ast.walk(t) if isinstance(s, ast.AugAssign) and isinstance(s.target, ast.Subscript)] if isinstance(t.test.ops[0], ast.Lt) else []
-    if isinstance(t.test.ops[0], ast.Lt) and len(upd) == 1:
+    upd = [s for b in (conflict_body or []) for s in ast.walk(b) if isinstance(s, ast.AugAssign) and isinstance(s.target, ast.Subscript)]
+    if conflict_body is not None and len(upd) == 1:
         u = upd[0]
         idx_ok = jvar in names_read(u.target.slice)
         val = u.value
         form_ok = isinstance(u.op, ast.Sub) and isinstance(val, ast.BinOp) and isinstance(val.op, ast.Div) and \
-            (names_read(val.left) & (names_read(t.test.left) | backward_reads(inner.body, t.test.left))) and \
+            (names_read(val.left) & (names_read(subject) | backward_reads(inner.body, subject))) and \
             isinstance(val.right, ast.Subscript) and norm_text(val.right.slice).replace(" ", "") in (f"{jvar},{jvar}", f"({jvar},{jvar})")
         ctx.require(idx_ok and bool(form_ok) and base_name(u.target) in carried, "R1", "PCGrad: projection step",
                     f"`{norm_text(u)}`", f"the projection step `{norm_text(u)}` is not `w[j] -= <g_pc, g_j> / <g_j, g_j>` on the carried weight vector", _loc(fi, u))
@@ -164,6 +179,14 @@ def graddrop(index, ctx, A, by_class):
     ms = [s for s in masks if s.targets[0].id == M]
     if ms:
         cmp = [(norm_text(c.left), type(c.ops[0]).__name__, norm_text(c.comparators[0])) for c in ast.walk(ms[0].value) if isinstance(c, ast.Compare)]
+        # orientation: the row (resp. the sign statistic) on the left, so that `0 < row` reads `row > 0`
+        flip = {"Gt": "Lt", "Lt": "Gt", "GtE": "LtE", "LtE": "GtE"}
+        cmp = [(r, flip.get(o, o), l) if (r == row_syms[0] or (l in ("0", "0.0"))) and l != row_syms[0] else (l, o, r) for l, o, r in cmp]
+        rest = [c for c in cmp if c[0] != row_syms[0]]
+        if len(rest) == 2 and rest[0][0] == rest[1][2] and rest[0][2] == rest[1][0]:
+            # the two sign tests written with opposite operand order: orient the second like the first
+            i = cmp.index(rest[1])
+            cmp[i] = (rest[1][2], flip.get(rest[1][1], rest[1][1]), rest[1][0])
         pos = [c for c in cmp if c[0] == row_syms[0] and c[1] == "Gt" and c[2] in ("0", "0.0")]
         neg = [c for c in cmp if c[0] == row_syms[0] and c[1] == "Lt" and c[2] in ("0", "0.0")]
         others = [c for c in cmp if c[0] != row_syms[0]]
